@@ -360,7 +360,9 @@ def fam_uspace():
     for w in USPACES:
         for lines in ([w + '# a'], [w + '- a'], [w + '> a'], [w + '***'], [w + '1. a'], ['a', w + '# b'], ['a', w + '==='],
                       ['a', w + '- b'], [w + 'a'], ['a' + w], ['a', w + 'b'], ['#' + w + 'a'], ['-' + w + 'a'], ['a' + w + '#'],
-                      ['*' + w + 'a*'], ['`' + w + 'a' + w + '`'], ['| a' + w + '|', '| - |']):
+                      ['*' + w + 'a*'], ['`' + w + 'a' + w + '`'], ['| a' + w + '|', '| - |'],
+                      # a separator line made of this white space only: blank for the parser, so it must stay a blank line
+                      ['a', w, 'b'], ['- a', w, '- b'], ['a', w + w, '[k]: /u', '', '[k]']):
             out.extend(blocks_ctx(lines, stacks=((), ('>',)), tails=((), ('z',))))
     return out
 
